@@ -543,11 +543,11 @@ def _enumerate_named(tier):
 
 SUBS = [
     Sub("named_random", check_named, strategy=_dataset, quick=500, thorough=5000, shards=16,
-        floors={"nt": 0.304, "singleton_group": 0.3, "weighted": 0.293, "weighted_singleton_group": 0.15,
+        floors={"nt": 0.232, "singleton_group": 0.3, "weighted": 0.249, "weighted_singleton_group": 0.15,
                 "empty_rate_denominator": 0.2}),
     Sub("named_exhaustive", check_named, enumerate=_enumerate_named, shards=16, exhaustive=True),
     Sub("generated_random", check_generated, strategy=_generated_case, quick=700, thorough=8000, shards=16,
-        floors={"nt": 0.237}),
+        floors={"nt": 0.19}),
     Sub("derived_random", check_derived, strategy=_derived_case, quick=500, thorough=6000, shards=8,
-        floors={"nt": 0.318, "bound_params": 0.225, "weighted": 0.3}),
+        floors={"nt": 0.208, "bound_params": 0.225, "weighted": 0.263}),
 ]
